@@ -361,6 +361,11 @@ JUNK_CHARS = [
     "\x1f", "﻿",
 ]
 JUNK_STRINGS = ["NaN", "inf", "--", "..", "1e", "e5", "0x10", "1,,2", "- 1", "+", "-", ".", "1.2.3e", "z5", "none", "∞"]
+# numbers at the edges of what a double can hold, and digit strings longer than any double
+EXTREME_NUMBERS = [
+    "1e-200", "1e200", "1e308", "-1e308", "1e-320", "5e-324", "1e-170", "-1e300", "1e160", "1e-160", "1.7976931348623157e308",
+    "9" * 400, "1" + "0" * 320, "0." + "0" * 330 + "1", "-" + "7" * 310, "1e-400", "1e400", "123456789012345678901234567890",
+]
 FRAGMENTS = [
     "h", "H", "v", "V", "h 5", "H 5", "v 5", "V 5", "a 1", "A 1", "a 1 1", "a 1 1 0", "a 1 1 0 1", "a 1 1 0 1 1",
     "a 1 1 0 1 1 5", "t 1,1", "T 1,1", "s 1,1 2,2", "S 1,1 2,2", "z", "Z", "l", "L", "l 1", "c", "C 1,1", "c 1,1 2,2",
